@@ -125,6 +125,35 @@ def exportKM {S T : Type} (F : S → T → Bytes → Option Bytes → Nat → By
   | some why => .error why
   | none => .ok (F secret transcript label context length)
 
+/-! ## which transcript the TLS 1.3 exporter is derived from -/
+
+/-- the TLS 1.3 handshake as the client's running transcript sees it: the messages up to and including the
+server Finished, then whatever the client sends before its own Finished (end_of_early_data, and after a
+CertificateRequest its Certificate — possibly empty — and CertificateVerify). -/
+structure Flight where
+  throughServerFinished : List Bytes
+  clientFlight : List Bytes
+  deriving DecidableEq, Repr
+
+/-- where the client installs its exporter closure. -/
+inductive EkmPoint where
+  | afterServerFinished      -- last statement of `readServerFinished` (the code)
+  | beforeClientFinished     -- first statement of `sendClientFinished`
+  deriving DecidableEq, Repr
+
+/-- the transcript the client's exporter closure captures when installed at `p` (the closure calls
+`ExporterMasterSecret(transcript)` at once, on the running transcript of that moment). -/
+def clientEkmTranscript (p : EkmPoint) (f : Flight) : List Bytes :=
+  match p with
+  | .afterServerFinished => f.throughServerFinished
+  | .beforeClientFinished => f.throughServerFinished ++ f.clientFlight
+
+/-- the server installs its closure right after writing its Finished. -/
+def serverEkmTranscript (f : Flight) : List Bytes := f.throughServerFinished
+
+/-- `readServerFinished` ends with `c.ekm = hs.suite.exportKeyingMaterial(hs.masterSecret, hs.transcript)`. -/
+def codeEkmPoint : EkmPoint := .afterServerFinished
+
 /-- whether the extended master secret is in force (`c.extMasterSecret`, both ends): echoed by the
 ServerHello of a TLS ≤ 1.2 full handshake (the server echoes it exactly when the hello offered it), or
 inherited from the resumed session. -/
